@@ -3,6 +3,7 @@
 
   FutureFSM       labtech.runners.process.Future
   SmallModels     labtech.utils.LoggerFileProxy, labtech.utils.OrderedSet, labtech.runners.process.ProcessMonitor
+  CycleCheck      TaskState.check_cyclic_dependences: the code's DFS against reachability on every small dependency graph
   StorageSeq      the Storage interface as a sequential object: LocalStorage and FsspecStorage (local filesystem)
   LabRunTrace     implementation-level trace validation: is every recorded execution (hook events + the rig's environment
                   steps) a behaviour of LabRun?  A drift measure of the model, not a property verdict.
@@ -63,6 +64,34 @@ def storage_seq(scratch):
     return ok, (f'StorageSeq: {r.distinct} states, {len(seqs)} call sequences replayed on 2 providers, {len(disagree)} disagree; '
                 f'{len(bad)} corrupted recordings, {len(bad) - len(missed)} rejected'
                 + (f'; first: {json.dumps(first)[:400]}' if first else ''))
+
+
+def cycle_check(scratch):
+    """CycleCheck: the DFS of check_cyclic_dependences against reachability, on every dependency graph over 4 nodes
+    (no self-loops) and over 3 nodes (with self-loops); then the real method on the same graphs."""
+    graphs, states = [], 0
+    for cfg in ('CycleCheck_gen.cfg', 'CycleCheck_loops.cfg'):
+        r = tlc.run_tlc('CycleCheck', cfg, scratch=scratch, workers=4, heap='2g', tag='cg', timeout=900)
+        if r.error or r.violated:
+            return False, f'CycleCheck/{cfg}: model failed: {r.error or r.violated}'
+        graphs += [json.loads(p) for p in r.prints]
+        states += r.distinct
+    obs = harness.run_jobs([{'id': f'cy{i}', 'graphs': graphs[i::4]} for i in range(4)], scratch, module='lv.rigs.cyclecheck', procs=4)
+    bad = [dict(o, id=o['id'] + '~corrupt', verdict='ok' if o['verdict'] != 'ok' else 'cyclic') for o in obs[:200]]
+    f = scratch / 'obs_cycle.ndjson'
+    tlc.dump_ndjson(f, [{k: o[k] for k in ('id', 'graph', 'verdict')} for o in obs + bad])
+    j = tlc.run_tlc('CycleCheck', 'CycleCheck_judge.cfg', scratch=scratch, workers=1, heap='2g', env={'LV_OBS': str(f)}, tag='cj', timeout=900)
+    if j.error or j.violated:
+        return False, f'CycleCheck: judge failed: {j.error or j.violated}'
+    verdicts = {v['id']: v['ok'] for v in (json.loads(p) for p in j.prints)}
+    disagree = [o for o in obs if not verdicts.get(o['id'], False)]
+    missed = [c['id'] for c in bad if verdicts.get(c['id'], True)]
+    cyc = sum(1 for o in obs if o['verdict'] == 'cyclic')
+    first = disagree[0] if disagree else None
+    ok = not disagree and not missed and len(obs) == 2 * len(graphs) and cyc > 0 and cyc < len(obs)
+    return ok, (f'CycleCheck: {states} graphs model-checked (DFS verdict = reachability), {len(obs)} calls of the real method '
+                f'({cyc} report a cycle), {len(disagree)} disagree; {len(bad)} corrupted verdicts, {len(bad) - len(missed)} rejected'
+                + (f'; first: {json.dumps(first)[:300]}' if first else ''))
 
 
 def labrun_growth(scratch):
@@ -174,6 +203,9 @@ def main() -> int:
             good, msg = _one(scratch, *args)
             print(('[ok] ' if good else '[MISMATCH] ') + msg)
             ok = ok and good
+        good, msg = cycle_check(scratch)
+        print(('[ok] ' if good else '[MISMATCH] ') + msg)
+        ok = ok and good
         good, msg = storage_seq(scratch)
         print(('[ok] ' if good else '[MISMATCH] ') + msg)
         ok = ok and good
